@@ -22,15 +22,19 @@ require (
 	github.com/iotaledger/hive.go/stringify v0.0.0
 	github.com/iotaledger/hive.go/web v0.0.0
 	github.com/leanovate/gopter v0.2.11
+	github.com/stretchr/testify v1.9.0
 	pgregory.net/rapid v1.3.0
 )
 
 require (
+	github.com/davecgh/go-spew v1.1.1 // indirect
 	github.com/ethereum/go-ethereum v1.13.14 // indirect
 	github.com/holiman/uint256 v1.2.4 // indirect
 	github.com/iancoleman/orderedmap v0.3.0 // indirect
 	github.com/kr/text v0.2.0 // indirect
+	github.com/pmezard/go-difflib v1.0.0 // indirect
 	github.com/pokt-network/smt v0.9.2 // indirect
+	gopkg.in/yaml.v3 v3.0.1 // indirect
 )
 
 replace (
